@@ -1102,6 +1102,16 @@ def _pp_designs(rng):
     w1 = add(scale(2, mo), ed)
     w2 = add(scale(3, mo), scale(-1, ed))
     out.append((A, ('Polygon', (E, add(E, w1), add(E, w2))), 'pp_coplanar_vertex_on_edge'))
+    # coplanar, crossing without containing each other's vertices (added after seed C12-B slipped through: a plus sign of two
+    # rectangles and a hexagram of two triangles, in the construction frame z = 0, later posed like every other pair)
+    a_, b_ = F(rng.randint(3, 5)), F(rng.randint(1, 2), 2)
+    ox, oy = F(rng.randint(-3, 3)), F(rng.randint(-3, 3))
+    rect = lambda hx, hy: ('Polygon', ((ox - hx, oy - hy, F(0)), (ox + hx, oy - hy, F(0)), (ox + hx, oy + hy, F(0)), (ox - hx, oy + hy, F(0))))
+    out.append((rect(a_, b_), rect(b_, a_), 'pp_coplanar_plus_sign'))
+    t_ = F(rng.randint(2, 4))
+    tri_up = ('Polygon', ((ox - 2 * t_, oy - t_, F(0)), (ox + 2 * t_, oy - t_, F(0)), (ox, oy + 2 * t_, F(0))))
+    tri_dn = ('Polygon', ((ox - 2 * t_, oy + t_, F(0)), (ox, oy - 2 * t_, F(0)), (ox + 2 * t_, oy + t_, F(0))))
+    out.append((tri_up, tri_dn, 'pp_coplanar_hexagram'))
     # parallel planes
     out.append((A, translated(A, (0, 0, _half_offset(rng))), 'pp_parallel_planes'))
     # crossing planes
